@@ -111,11 +111,13 @@ theorem same_addBytes_up (b : Int) (fuel : Nat) : ∀ (s : P7540) (x : Option Na
     | none => unfold addBytes.up; exact Same.refl s
     | some x =>
       unfold addBytes.up
-      exact (same_modNode s x (fun _ => ⟨rfl, rfl, rfl⟩)).trans (ih _ _)
+      apply Same.trans ?_ (ih _ _)
+      exact same_modNode _ _ (fun _ => ⟨rfl, rfl, rfl⟩)
 
 theorem same_addBytes (s : P7540) (n : Nat) (b : Int) : Same s (s.addBytes n b) := by
   unfold addBytes
-  exact (same_modNode s n (fun _ => ⟨rfl, rfl, rfl⟩)).trans (same_addBytes_up b _ _ _)
+  apply Same.trans ?_ (same_addBytes_up b _ _ _)
+  exact same_modNode _ _ (fun _ => ⟨rfl, rfl, rfl⟩)
 
 theorem same_limit (s : P7540) (l : Int) : Same s { s with limit := l } :=
   ⟨rfl, fun _ => ⟨rfl, rfl, rfl⟩, rfl, rfl, rfl, rfl, rfl⟩
@@ -162,43 +164,45 @@ theorem isEmpty_false_toList {q : WQ} (h : q.isEmpty = false) : q.toList ≠ [] 
 theorem visit_spec (e : Env) (s : P7540) (n : Nat) (op : Bool) (hl : 0 < s.limit) (hn : n < s.store.length)
     (hq : (s.node n).q.toList ≠ []) :
     WalkRes e s (visit e s n op).1 (visit e s n op).2.1 (visit e s n op).2.2 := by
-  unfold visit
-  rcases hc : (s.node n).q.consume e (if op = true then s.limit else maxInt32) with ⟨e', q', o⟩
-  cases o with
-  | none => simp only; exact WalkRes.none (Same.refl s) rfl
-  | some f =>
-    simp only
-    have hpos : (0 : Int) < (if op = true then s.limit else maxInt32) := by
-      split
+  generalize hv : visit e s n op = v
+  unfold visit at hv
+  split at hv
+  · subst hv; exact WalkRes.none (Same.refl s) rfl
+  · rename_i e' q' f hc
+    have hpos : (0 : Int) < s.visitLimit op := by
+      unfold visitLimit; split
       · exact hl
       · decide
     have hsq : SameQ s (s.modNode n fun nn => { nn with q := q' }) n q' :=
       ⟨length_modNode _ _ _, by rw [node_modNode_self s _ hn]; exact ⟨rfl, rfl, rfl⟩,
        fun i hi => by rw [node_modNode_ne s _ hi]; exact ⟨rfl, rfl, rfl⟩, rfl, rfl, rfl, rfl, rfl⟩
     have hsq2 := hsq.of_same_right (same_addBytes _ n f.dataSize)
+    have hup : ∀ (b : Int) (fuel : Nat) (t : P7540) (x : Option Nat), (addBytes.up b fuel t x).limit = t.limit := by
+      intro b fuel
+      induction fuel with
+      | zero => intro t x; unfold addBytes.up; rfl
+      | succ k ih =>
+        intro t x
+        cases x with
+        | none => unfold addBytes.up; rfl
+        | some x => unfold addBytes.up; rw [ih]; rfl
     have hlim0 : ((s.modNode n fun nn => { nn with q := q' }).addBytes n f.dataSize).limit = s.limit := by
       unfold addBytes
-      have : ∀ (b : Int) (fuel : Nat) (t : P7540) (x : Option Nat), (addBytes.up b fuel t x).limit = t.limit := by
-        intro b fuel
-        induction fuel with
-        | zero => intro t x; unfold addBytes.up; rfl
-        | succ k ih =>
-          intro t x
-          cases x with
-          | none => unfold addBytes.up; rfl
-          | some x => unfold addBytes.up; rw [ih]; rfl
-      rw [this]; rfl
-    refine WalkRes.some hpos hn hq hc ?_ ?_
-    · split
-      · exact hsq2.of_same_right (same_limit _ _)
+      simp only [hup]; rfl
+    have hav : ∀ t : P7540, 0 < t.limit → Same t (t.afterVisit op) ∧ 0 < (t.afterVisit op).limit := by
+      intro t ht
+      unfold afterVisit
+      split
+      · refine ⟨same_limit _ _, ?_⟩
+        simp only; split
+        · decide
+        · omega
       · split
-        · exact hsq2.of_same_right (same_limit _ _)
-        · exact hsq2
-    · split
-      · simp only; split <;> simp only [hlim0] <;> first | decide | omega
-      · split
-        · simp only; decide
-        · rw [hlim0]; exact hl
+        · exact ⟨same_limit _ _, by simp⟩
+        · exact ⟨Same.refl t, ht⟩
+    obtain ⟨h1, h2⟩ := hav _ (by rw [hlim0]; exact hl)
+    subst hv
+    exact WalkRes.some hpos hn hq hc (hsq2.of_same_right h1) h2
 
 theorem walkRes_of_same {e : Env} {s s1 : P7540} (h : Same s s1) (hlim : s1.limit = s.limit) {e' : Env} {s' : P7540}
     {r : Option Frame} (hw : WalkRes e s1 e' s' r) : WalkRes e s e' s' r := by
@@ -210,11 +214,17 @@ theorem walkRes_of_same {e : Env} {s s1 : P7540} (h : Same s s1) (hlim : s1.limi
     refine WalkRes.some hpos (by rw [← h.len]; exact hn) (by rw [← hqeq]; exact hq) (by rw [← hqeq]; exact hc)
       (hsq.of_same_left h) hl'
 
+theorem walkRes_none_env {e e' : Env} {s s' : P7540} {r : Option Frame} (h : WalkRes e s e' s' r) (hr : r = none) :
+    e' = e := by
+  cases h with
+  | none _ _ => rfl
+  | some _ _ _ _ _ _ => cases hr
+
 theorem walk_spec (fuel : Nat) : ∀ (e : Env) (s : P7540) (n : Nat) (op : Bool), 0 < s.limit →
     WalkRes e s (walk fuel e s n op).1 (walk fuel e s n op).2.1 (walk fuel e s n op).2.2 := by
   induction fuel with
   | zero => intro e s n op _; unfold walk; exact WalkRes.none (Same.refl s) rfl
-  | succ k ih =>
+  | succ fu ih =>
     intro e s n op hl
     unfold walk
     -- the node itself
@@ -256,15 +266,15 @@ theorem walk_spec (fuel : Nat) : ∀ (e : Env) (s : P7540) (n : Nat) (op : Bool)
               (l.foldl (fun (acc : Env × P7540 × Option Frame) k =>
                 match acc with
                 | (_, _, some _) => acc
-                | (e', s', none) => walk k e' s' k op') acc).1
+                | (e', s', none) => walk fu e' s' k op') acc).1
               (l.foldl (fun (acc : Env × P7540 × Option Frame) k =>
                 match acc with
                 | (_, _, some _) => acc
-                | (e', s', none) => walk k e' s' k op') acc).2.1
+                | (e', s', none) => walk fu e' s' k op') acc).2.1
               (l.foldl (fun (acc : Env × P7540 × Option Frame) k =>
                 match acc with
                 | (_, _, some _) => acc
-                | (e', s', none) => walk k e' s' k op') acc).2.2 := by
+                | (e', s', none) => walk fu e' s' k op') acc).2.2 := by
           intro l op'
           induction l with
           | nil => intro acc h _; simpa using h
@@ -285,12 +295,310 @@ theorem walk_spec (fuel : Nat) : ∀ (e : Env) (s : P7540) (n : Nat) (op : Bool)
                 have hw' := walkRes_of_same hsm hlm hw
                 apply ihl _ hw'
                 intro hnone
-                cases hw with
-                | none _ _ => rfl
-                | some _ _ _ _ _ _ => rw [← hnone]; simp at hnone
+                exact walkRes_none_env hw hnone
         have := hloop (s2.node n).kids
           (if (s.node n).id != 0 then op || (s.node n).state == 0 else op) (e, s2, none)
           (WalkRes.none (Same.refl s2) rfl) (fun _ => rfl)
         exact walkRes_of_same hsame2.1 hsame2.2 this
+
+/-! ### Abstraction and invariant -/
+
+def absP7 (s : P7540) : Abs :=
+  ⟨(s.node 0).q.toList, fun id => if id = 0 then [] else
+      match s.lookup id with
+      | some n => (s.node n).q.toList
+      | none => []⟩
+
+/-- Map/queue part of the invariant (`opn`: open streams, `ever`: ids ever opened). -/
+structure CoreInv (s : P7540) (opn ever : Nat → Bool) : Prop where
+  root : s.lookup 0 = some 0
+  rootlen : 0 < s.store.length
+  rootid : (s.node 0).id = 0
+  rootst : (s.node 0).state = 0
+  map : ∀ id n, s.lookup id = some n → n < s.store.length ∧ (s.node n).id = id
+  opn : ∀ id, opn id = true ↔ (id ≠ 0 ∧ ∃ n, s.lookup id = some n ∧ (s.node n).state = 0)
+  emp : ∀ n, n ≠ 0 → (s.node n).q.toList ≠ [] → ∃ id, s.lookup id = some n ∧ (s.node n).state = 0
+  ever : ∀ id n, id ≠ 0 → s.lookup id = some n → (s.node n).state ≠ 2 → ever id = true
+  lim : 0 < s.limit
+
+/-- The closed / idle lists hold mapped nodes in the right state, without repetition. -/
+structure ListInv (s : P7540) : Prop where
+  closedL : ∀ x ∈ s.closedL, (s.node x).state = 1 ∧ s.lookup (s.node x).id = some x
+  idleL : ∀ x ∈ s.idleL, (s.node x).state = 2 ∧ s.lookup (s.node x).id = some x
+  closedNodup : s.closedL.Nodup
+  idleNodup : s.idleL.Nodup
+
+theorem CoreInv.zero_iff {s : P7540} {opn ever : Nat → Bool} (h : CoreInv s opn ever) {id n : Nat}
+    (hl : s.lookup id = some n) : n = 0 ↔ id = 0 := by
+  constructor
+  · intro hn; subst hn; have := (h.map id 0 hl).2; rw [h.rootid] at this; exact this.symm
+  · intro hi; subst hi; rw [h.root] at hl; cases hl; rfl
+
+theorem CoreInv.inj {s : P7540} {opn ever : Nat → Bool} (h : CoreInv s opn ever) {a b n : Nat}
+    (ha : s.lookup a = some n) (hb : s.lookup b = some n) : a = b := by
+  rw [← (h.map a n ha).2, ← (h.map b n hb).2]
+
+theorem lookup_of_nodes {s s' : P7540} (h : s'.nodes = s.nodes) (id : Nat) : s'.lookup id = s.lookup id := by
+  simp [lookup, h]
+
+theorem abs_same {s s' : P7540} (h : Same s s') : absP7 s' = absP7 s := by
+  refine Abs.ext' ?_ ?_
+  · simp [absP7, (h.nd 0).1]
+  · intro id
+    simp only [absP7, lookup_of_nodes h.nodes]
+    split
+    · rfl
+    · split
+      · rename_i n _; rw [(h.nd n).1]
+      · rfl
+
+theorem core_same {s s' : P7540} {opn ever : Nat → Bool} (hi : CoreInv s opn ever) (h : Same s s')
+    (hl : 0 < s'.limit) : CoreInv s' opn ever := by
+  have hlk := lookup_of_nodes h.nodes
+  refine ⟨by rw [hlk]; exact hi.root, by rw [h.len]; exact hi.rootlen, by rw [(h.nd 0).2.2]; exact hi.rootid,
+    by rw [(h.nd 0).2.1]; exact hi.rootst, ?_, ?_, ?_, ?_, hl⟩
+  · intro id n hn; rw [hlk] at hn; rw [h.len, (h.nd n).2.2]; exact hi.map id n hn
+  · intro id; rw [hi.opn id]
+    constructor
+    · rintro ⟨h0, n, h1, h2⟩; exact ⟨h0, n, by rw [hlk]; exact h1, by rw [(h.nd n).2.1]; exact h2⟩
+    · rintro ⟨h0, n, h1, h2⟩; exact ⟨h0, n, by rw [hlk] at h1; exact h1, by rw [(h.nd n).2.1] at h2; exact h2⟩
+  · intro n hn hq; rw [(h.nd n).1] at hq
+    obtain ⟨id, h1, h2⟩ := hi.emp n hn hq
+    exact ⟨id, by rw [hlk]; exact h1, by rw [(h.nd n).2.1]; exact h2⟩
+  · intro id n h0 h1 h2; rw [hlk] at h1; rw [(h.nd n).2.1] at h2; exact hi.ever id n h0 h1 h2
+
+theorem list_same {s s' : P7540} (hi : ListInv s) (h : Same s s') : ListInv s' := by
+  have hlk := lookup_of_nodes h.nodes
+  refine ⟨?_, ?_, by rw [h.closedL]; exact hi.closedNodup, by rw [h.idleL]; exact hi.idleNodup⟩
+  · intro x hx; rw [h.closedL] at hx
+    rw [(h.nd x).2.1, (h.nd x).2.2, hlk]; exact hi.closedL x hx
+  · intro x hx; rw [h.idleL] at hx
+    rw [(h.nd x).2.1, (h.nd x).2.2, hlk]; exact hi.idleL x hx
+
+/-- After replacing the queue of the root. -/
+theorem abs_sameQ_root {s s' : P7540} {opn ever : Nat → Bool} {q' : WQ} (hi : CoreInv s opn ever)
+    (h : SameQ s s' 0 q') : absP7 s' = ⟨q'.toList, (absP7 s).q⟩ := by
+  refine Abs.ext' ?_ ?_
+  · simp [absP7, h.self.1]
+  · intro id
+    simp only [absP7, lookup_of_nodes h.nodes]
+    split
+    · rfl
+    · rename_i hid
+      cases hl : s.lookup id with
+      | none => rfl
+      | some n =>
+        simp only
+        have hn : n ≠ 0 := fun hh => hid ((hi.zero_iff hl).1 hh)
+        rw [(h.nd n hn).1]
+
+/-- After replacing the queue of the node of stream `id`. -/
+theorem abs_sameQ_node {s s' : P7540} {opn ever : Nat → Bool} {q' : WQ} {id nid : Nat} (hi : CoreInv s opn ever)
+    (hl : s.lookup id = some nid) (hid : id ≠ 0) (h : SameQ s s' nid q') :
+    absP7 s' = ⟨(absP7 s).ctl, upd (absP7 s).q id q'.toList⟩ := by
+  have hn0 : nid ≠ 0 := fun hh => hid ((hi.zero_iff hl).1 hh)
+  refine Abs.ext' ?_ ?_
+  · simp [absP7, (h.nd 0 (Ne.symm hn0)).1]
+  · intro x
+    simp only [absP7, lookup_of_nodes h.nodes, upd]
+    by_cases hx : x = id
+    · subst hx; simp [hid, hl, h.self.1]
+    · simp only [hx, if_false]
+      split
+      · rfl
+      · cases hlx : s.lookup x with
+        | none => rfl
+        | some n =>
+          simp only
+          have : n ≠ nid := fun hh => hx (hi.inj (hh ▸ hlx) hl)
+          rw [(h.nd n this).1]
+
+theorem core_sameQ {s s' : P7540} {opn ever : Nat → Bool} {q' : WQ} {nid : Nat} (hi : CoreInv s opn ever)
+    (h : SameQ s s' nid q') (hl : 0 < s'.limit)
+    (hq : q'.toList ≠ [] → nid ≠ 0 → ∃ id, s.lookup id = some nid ∧ (s.node nid).state = 0) :
+    CoreInv s' opn ever := by
+  have hlk := lookup_of_nodes h.nodes
+  have hst : ∀ n, (s'.node n).state = (s.node n).state := by
+    intro n; by_cases hn : n = nid
+    · subst hn; exact h.self.2.1
+    · exact (h.nd n hn).2.1
+  have hidf : ∀ n, (s'.node n).id = (s.node n).id := by
+    intro n; by_cases hn : n = nid
+    · subst hn; exact h.self.2.2
+    · exact (h.nd n hn).2.2
+  refine ⟨by rw [hlk]; exact hi.root, by rw [h.len]; exact hi.rootlen, by rw [hidf]; exact hi.rootid,
+    by rw [hst]; exact hi.rootst, ?_, ?_, ?_, ?_, hl⟩
+  · intro id n hn; rw [hlk] at hn; rw [h.len, hidf]; exact hi.map id n hn
+  · intro id; rw [hi.opn id]
+    constructor
+    · rintro ⟨h0, n, h1, h2⟩; exact ⟨h0, n, by rw [hlk]; exact h1, by rw [hst]; exact h2⟩
+    · rintro ⟨h0, n, h1, h2⟩; exact ⟨h0, n, by rw [hlk] at h1; exact h1, by rw [hst] at h2; exact h2⟩
+  · intro n hn hqn
+    by_cases hnn : n = nid
+    · subst hnn
+      rw [h.self.1] at hqn
+      obtain ⟨id, h1, h2⟩ := hq hqn hn
+      exact ⟨id, by rw [hlk]; exact h1, by rw [hst]; exact h2⟩
+    · rw [(h.nd n hnn).1] at hqn
+      obtain ⟨id, h1, h2⟩ := hi.emp n hn hqn
+      exact ⟨id, by rw [hlk]; exact h1, by rw [hst]; exact h2⟩
+  · intro id n h0 h1 h2; rw [hlk] at h1; rw [hst] at h2; exact hi.ever id n h0 h1 h2
+
+theorem list_sameQ {s s' : P7540} {q' : WQ} {nid : Nat} (hi : ListInv s) (h : SameQ s s' nid q') : ListInv s' := by
+  have hlk := lookup_of_nodes h.nodes
+  have hst : ∀ n, (s'.node n).state = (s.node n).state := by
+    intro n; by_cases hn : n = nid
+    · subst hn; exact h.self.2.1
+    · exact (h.nd n hn).2.1
+  have hidf : ∀ n, (s'.node n).id = (s.node n).id := by
+    intro n; by_cases hn : n = nid
+    · subst hn; exact h.self.2.2
+    · exact (h.nd n hn).2.2
+  refine ⟨?_, ?_, by rw [h.closedL]; exact hi.closedNodup, by rw [h.idleL]; exact hi.idleNodup⟩
+  · intro x hx; rw [h.closedL] at hx; rw [hst, hidf, hlk]; exact hi.closedL x hx
+  · intro x hx; rw [h.idleL] at hx; rw [hst, hidf, hlk]; exact hi.idleL x hx
+
+/-- `modNode` with a function that only changes the queue. -/
+theorem sameQ_modNode (s : P7540) {n : Nat} (hn : n < s.store.length) (f : Node → Node)
+    (hf : ∀ m, (f m).state = m.state ∧ (f m).id = m.id) : SameQ s (s.modNode n f) n (f (s.node n)).q :=
+  ⟨length_modNode _ _ _, by rw [node_modNode_self s _ hn]; exact ⟨rfl, (hf _).1, (hf _).2⟩,
+   fun i hi => by rw [node_modNode_ne s _ hi]; exact ⟨rfl, rfl, rfl⟩, rfl, rfl, rfl, rfl, rfl⟩
+
+/-! ### Push -/
+
+theorem p7_push {s : P7540} {opn ever : Nat → Bool} {f : Frame} (hc : CoreInv s opn ever) (hli : ListInv s)
+    (hok : pushOK opn f) :
+    ∃ s', s.push f = (s', .ok) ∧ absP7 s' = (absP7 s).applyOp (.push f) ∧ CoreInv s' opn ever ∧ ListInv s' := by
+  by_cases hctl : f.isControl = true
+  · have hsq := sameQ_modNode s hc.rootlen (fun nn => { nn with q := nn.q.push f }) (fun _ => ⟨rfl, rfl⟩)
+    refine ⟨s.modNode 0 fun nn => { nn with q := nn.q.push f }, by simp [P7540.push, hctl], ?_, ?_, list_sameQ hli hsq⟩
+    · rw [abs_sameQ_root hc hsq]
+      simp [Abs.applyOp, hctl, push_toList, absP7]
+    · exact core_sameQ hc hsq hc.lim (fun _ h0 => absurd rfl h0)
+  · have hctl' : f.isControl = false := by simpa using hctl
+    have hopen := pushOK_stream hok hctl'
+    obtain ⟨hid, n, hl, hst⟩ := (hc.opn _).1 hopen
+    have hn := (hc.map _ n hl).1
+    have hsq := sameQ_modNode s hn (fun nn => { nn with q := nn.q.push f }) (fun _ => ⟨rfl, rfl⟩)
+    refine ⟨s.modNode n fun nn => { nn with q := nn.q.push f }, by simp [P7540.push, hctl', hl], ?_, ?_, list_sameQ hli hsq⟩
+    · rw [abs_sameQ_node hc hl hid hsq]
+      simp only [Abs.applyOp, hctl', Bool.false_eq_true, if_false, push_toList]
+      refine Abs.ext' rfl ?_
+      intro x
+      simp only [upd]
+      split
+      · simp [absP7, hid, hl]
+      · rfl
+    · exact core_sameQ hc hsq hc.lim (fun _ _ => ⟨_, hl, hst⟩)
+
+/-! ### Pop -/
+
+theorem same_afterVisit (t : P7540) (op : Bool) (ht : 0 < t.limit) :
+    Same t (t.afterVisit op) ∧ 0 < (t.afterVisit op).limit := by
+  unfold afterVisit
+  split
+  · refine ⟨same_limit _ _, ?_⟩
+    simp only; split
+    · decide
+    · omega
+  · split
+    · exact ⟨same_limit _ _, by simp⟩
+    · exact ⟨Same.refl t, ht⟩
+
+theorem addBytes_limit (s : P7540) (n : Nat) (b : Int) : (s.addBytes n b).limit = s.limit := by
+  have hup : ∀ (fuel : Nat) (t : P7540) (x : Option Nat), (addBytes.up b fuel t x).limit = t.limit := by
+    intro fuel
+    induction fuel with
+    | zero => intro t x; unfold addBytes.up; rfl
+    | succ k ih =>
+      intro t x
+      cases x with
+      | none => unfold addBytes.up; rfl
+      | some x => unfold addBytes.up; rw [ih]; rfl
+  unfold addBytes
+  simp only [hup]; rfl
+
+/-- A successful visit of node `n` consumed from `n`'s queue and changed nothing else C12 can see. -/
+theorem visit_some {e e' : Env} {s s' : P7540} {n : Nat} {op : Bool} {f : Frame} {q' : WQ} (hl : 0 < s.limit)
+    (hn : n < s.store.length) (hcons : (s.node n).q.consume e (s.visitLimit op) = (e', q', some f)) :
+    ∃ s', visit e s n op = (e', s', some f) ∧ SameQ s s' n q' ∧ 0 < s'.limit := by
+  have hsq := sameQ_modNode s hn (fun nn => { nn with q := q' }) (fun _ => ⟨rfl, rfl⟩)
+  have hsq2 := hsq.of_same_right (same_addBytes _ n f.dataSize)
+  have hlim : ((s.modNode n fun nn => { nn with q := q' }).addBytes n f.dataSize).limit = s.limit := by
+    rw [addBytes_limit]; rfl
+  obtain ⟨h1, h2⟩ := same_afterVisit ((s.modNode n fun nn => { nn with q := q' }).addBytes n f.dataSize) op
+    (by rw [hlim]; exact hl)
+  exact ⟨_, by simp [visit, hcons], hsq2.of_same_right h1, h2⟩
+
+theorem ctl_consume {f : Frame} (hf : f.isControl = true) (e : Env) (n : Int) : f.consume e n = (e, .whole f) := by
+  rcases consume_cases e n f with ⟨h1, _⟩ | ⟨sid, tag, off, len, fin, last, rfl, _, _⟩
+  · exact h1
+  · simp [Frame.isControl] at hf
+
+theorem visitLimit_pos (s : P7540) (op : Bool) (hl : 0 < s.limit) : 0 < s.visitLimit op := by
+  unfold visitLimit; split
+  · exact hl
+  · decide
+
+theorem p7_pop {s : P7540} {opn ever : Nat → Bool} (e : Env) (hc : CoreInv s opn ever) (hli : ListInv s)
+    (hwf : AbsWF (absP7 s) opn) :
+    ∃ e' s' r, s.pop e = (e', s', r) ∧ PopSpec False e (absP7 s) r e' (absP7 s') ∧ CoreInv s' opn ever ∧ ListInv s' := by
+  cases hroot : (s.node 0).q.toList with
+  | cons f rest =>
+    -- control frames first
+    have hf := hwf.ctl f (by simp [absP7, hroot])
+    rcases wq_consume_cons e (s.visitLimit false) hroot with ⟨e1, h1, _⟩ | ⟨e1, q1, h1, h2, h3⟩ | ⟨e1, c, r, h1, _, _⟩
+    · rw [ctl_consume hf.1] at h1; cases h1
+    · rw [ctl_consume hf.1] at h1; cases h1
+      obtain ⟨s', hv, hsq, hl'⟩ := visit_some (op := false) hc.lim hc.rootlen h2
+      have hne : (s.node 0).q.isEmpty = false := by
+        cases hh : (s.node 0).q.isEmpty with
+        | false => rfl
+        | true => rw [(isEmpty_iff _).1 hh] at hroot; cases hroot
+      refine ⟨e, s', .frame f, ?_, ?_, core_sameQ hc hsq hl' (fun _ h0 => absurd rfl h0), list_sameQ hli hsq⟩
+      · unfold P7540.pop walk
+        simp [hne, hv]
+      · rw [abs_sameQ_root hc hsq, h3]
+        exact PopSpec.ctl (a := absP7 s) (by simp [absP7, hroot])
+    · rw [ctl_consume hf.1] at h1; cases h1
+  | nil =>
+    have hctl : (absP7 s).ctl = [] := by simp [absP7, hroot]
+    have hw := walk_spec (s.store.length + 1) e s 0 false hc.lim
+    rcases hp : walk (s.store.length + 1) e s 0 false with ⟨e', s', r⟩
+    rw [hp] at hw
+    cases r with
+    | none =>
+      refine ⟨e', s', .none, by simp [P7540.pop, hp], ?_, ?_, ?_⟩
+      · cases hw with
+        | none hs hlim =>
+          rw [abs_same hs]
+          exact PopSpec.none hctl (fun h => h.elim)
+      · cases hw with
+        | none hs hlim => exact core_same hc hs (by rw [hlim]; exact hc.lim)
+      · cases hw with
+        | none hs hlim => exact list_same hli hs
+    | some f =>
+      refine ⟨e', s', .frame f, by simp [P7540.pop, hp], ?_⟩
+      cases hw with
+      | some hpos hn hq hcons hsq hl' =>
+        rename_i nid limit q'
+        have hn0 : nid ≠ 0 := by intro hh; subst hh; exact hq hroot
+        obtain ⟨id, hlk, hst⟩ := hc.emp nid hn0 hq
+        have hid : id ≠ 0 := fun hh => hn0 ((hc.zero_iff hlk).2 hh)
+        have hcore := core_sameQ hc hsq hl' (fun _ _ => ⟨id, hlk, hst⟩)
+        refine ⟨?_, hcore, list_sameQ hli hsq⟩
+        rw [abs_sameQ_node hc hlk hid hsq, hctl]
+        cases hql : (s.node nid).q.toList with
+        | nil => exact absurd hql hq
+        | cons h rest =>
+          have haq : (absP7 s).q id = h :: rest := by simp [absP7, hid, hlk, hql]
+          rcases wq_consume_cons e limit hql with ⟨e1, h1, h2⟩ | ⟨e1, q1, h1, h2, h3⟩ | ⟨e1, c, r, h1, h2, h3⟩
+          · rw [h2] at hcons; cases hcons
+          · rw [h2] at hcons; cases hcons
+            rw [h3]
+            exact PopSpec.whole hctl haq hpos h1
+          · rw [h2] at hcons; cases hcons
+            rw [h3]
+            exact PopSpec.split hctl haq hpos h1
 
 end NetVerif.Proofs.WriteSched7540
